@@ -9,7 +9,7 @@ from ..guards import sites
 from ..layout import Env, MiniArray, eval_expr, prod
 from ..registry import describe, rule
 from .. import tmatch as tm
-from ..util import calls_named, peel, returns_of
+from ..util import deep_resolve, single_defs, calls_named, peel, returns_of
 from . import shared
 
 CPD = "pgmpy/factors/discrete/CPD.py"
@@ -319,11 +319,11 @@ def validate(rc):
             continue
         if tm.is_(t, "_c is None") is not None:
             k = "cpd present"
-        elif tm.is_(t, "set(_ev) != set(_pa)") is not None:
-            bb = tm.is_(t, "set(_ev) != set(_pa)")
-            src = {tm.find(f.node, "_x = _c.get_evidence()", {"_x": bb["_ev"]})[1] is not None: "ev", tm.find(f.node, "_x = _c.get_evidence()", {"_x": bb["_pa"]})[1] is not None: "ev2"}
-            has_ev = any(tm.find(f.node, "_x = _c.get_evidence()", {"_x": bb[v]})[1] is not None for v in ("_ev", "_pa"))
-            has_pa = any(tm.find(f.node, t2, {"_x": bb[v]})[1] is not None for v in ("_ev", "_pa") for t2 in ("_x = self.get_parents(_n)", "_x = self.predecessors(_n)", "_x = list(self.predecessors(_n))"))
+        elif tm.is_(deep_resolve(t, single_defs(f)), "set(__A) != set(__B)") is not None:
+            bb = tm.is_(deep_resolve(t, single_defs(f)), "set(__A) != set(__B)")
+            sides = [bb["__A"], bb["__B"]]
+            has_ev = any(tm.is_(x, "_c.get_evidence()") is not None for x in sides)
+            has_pa = any(tm.is_(x, t2) is not None for x in sides for t2 in ("self.get_parents(_n)", "self.predecessors(_n)", "list(self.predecessors(_n))"))
             k = "evidence == parents"
             if not (has_ev and has_pa):
                 rc.fail(f, t, "check_model must compare the CPD's evidence with the node's parents in the graph", construct="evidence/parents source")
